@@ -37,7 +37,7 @@ def bounds(tier):
 def goals(tier):
     return ["accepted-by-signature", "rejected-by-upstream-letter", "rejected-by-downstream-letter", "degenerate-signature-accepts",
             "degenerate-signature-rejects", "vector-part", "characterize-found", "characterize-runtimeerror", "characterize-concrete-root",
-            "characterize-several-candidates-accept", "other-kind-record", "signature-free-class-asked-first", "candidate-type-declared-after-first-use", "every-presentation-of-a-plasmid", "linear-record-accepted", "linear-record-rejected", "characterize-every-presentation", "linear-record-flush-with-the-structure", "boundary-length-record"]
+            "characterize-several-candidates-accept", "other-kind-record", "signature-free-class-asked-first", "candidate-type-declared-after-first-use", "every-presentation-of-a-plasmid", "linear-record-accepted", "linear-record-rejected", "characterize-every-presentation", "linear-record-flush-with-the-structure", "boundary-length-record", "record-object-reused"]
 
 
 # ---------------------------------------------------------------------------------------------
@@ -179,6 +179,9 @@ def check_presentations(st, cls, sr, scn, pobs, linear_only=False):
                          dict(scn, presentation=pname), exp, alt)
 
 
+_REUSED = {}
+
+
 def check_typing(st, cls, upsig, downsig, enz, kind, up, down, tier, scn_base, record_kind=None, size=None):
     if size is None and record_kind is None:
         # the same question on records of the boundary lengths of the definition (no presentations there)
@@ -218,6 +221,23 @@ def check_typing(st, cls, upsig, downsig, enz, kind, up, down, tier, scn_base, r
             exp = False
             st.goal("generic-rejects")
         got = pobs[0] is True
+        # the same question on a record OBJECT that earlier questions already used: its sequence is assigned in place and it is
+        # wrapped again while the previous wrapper of the same class is still alive (only the present content counts)
+        if record_kind is None:
+            slot = _REUSED.setdefault(cls, {})
+            if "rec" not in slot:
+                slot["rec"] = CircularRecord(Seq(sr), id="c5")
+            slot["rec"].seq = Seq(sr)
+            try:
+                ent = cls(slot["rec"])
+                v_ = ent.is_valid()
+                robs = (True, str(ent.overhang_start()), str(ent.overhang_end())) if v_ else (False,)
+            except Exception as e:
+                ent, robs = None, ("raises", type(e).__name__, str(e)[:100])
+            slot["alive"] = ent
+            st.goal("record-object-reused")
+            if robs != pobs:
+                st.violation("typing", "answer-for-a-reused-record-object-differs-from-a-fresh-one", dict(scn, reused=True), pobs, robs)
         if scn_base.get("presentations") and (r in base_rots or pobs[0] is True):
             check_presentations(st, cls, sr, scn, pobs, linear_only=r not in base_rots)
         st.scenario("accept" if exp else "reject", None, calls=2)
